@@ -225,6 +225,57 @@ fn alphabet(patterns: &[&str], ascii: bool) -> Vec<char> {
     out
 }
 
+/// Characters at the edges of the UTF-8 encoding: one or more for every lead-byte class
+/// (C2..DF two bytes, E0 / E1..EC / ED / EE..EF three bytes, F0 / F1..F3 / F4 four bytes), the
+/// first and last code point of every encoded length, the code points around the surrogate
+/// gap, and a few assigned letters from scripts with case (Greek, Cyrillic, Armenian) and
+/// without (Hebrew, Arabic, Devanagari, Hangul). A world draws a few of them into its
+/// haystack alphabet, so that every way of stepping over a character is exercised.
+pub const UTF8_EDGE_CHARS: &[char] = &[
+    '\u{80}', '\u{ff}', '\u{100}', '\u{17f}', '\u{3a9}', '\u{3c9}', '\u{416}', '\u{436}', '\u{531}', '\u{5d0}', '\u{627}', '\u{7ff}', '\u{800}', '\u{905}', '\u{fff}', '\u{1000}', '\u{1e9e}', '\u{ac00}', '\u{cfff}', '\u{d000}', '\u{d7ff}', '\u{e000}', '\u{f900}', '\u{fffd}',
+    '\u{ffff}', '\u{10000}', '\u{10400}', '\u{1f600}', '\u{3ffff}', '\u{40000}', '\u{fffff}', '\u{100000}', '\u{10ffff}',
+];
+
+/// Characters that ECMAScript pattern semantics single out: the four line terminators, the
+/// WhiteSpace set, the edges of \w / \d, ZWNJ / ZWJ, NUL and DEL, and the characters with
+/// irregular case mappings (long s, Kelvin sign, dotted / dotless i, a titlecase digraph,
+/// the three sigmas, sharp s and its capital).
+pub const SEMANTIC_CHARS: &[char] = &[
+    '\r', '\n', '\u{2028}', '\u{2029}', '\t', '\u{b}', '\u{c}', '\u{a0}', '\u{feff}', '\u{1680}', '\u{2003}', '\u{3000}', '_', '0', '9', 'z', 'Z', '\u{200c}', '\u{200d}', '\0', '\u{7f}', '\u{17f}', '\u{212a}', '\u{130}', '\u{131}', '\u{1c5}', '\u{3a3}', '\u{3c3}', '\u{3c2}', '\u{df}',
+    '\u{1e9e}', '\u{301}',
+];
+
+/// Multi-character sequences that are one unit to a reader but several to the engine.
+pub const SEMANTIC_TOKENS: &[&str] = &["\r\n", "\n\r", "\r\n\r\n", "e\u{301}", "\u{1f1fa}\u{1f1f8}", "a\u{200d}b", "\u{2028}\u{2029}", " \t", "_0"];
+
+/// 0-3 characters of UTF8_EDGE_CHARS / SEMANTIC_CHARS (none in about a third of the worlds).
+pub fn edge_chars(rng: &mut Rng) -> Vec<char> {
+    let k = match rng.below(6) {
+        0 | 1 => 0,
+        2 | 3 => 1,
+        4 => 2,
+        _ => 3,
+    };
+    (0..k)
+        .map(|_| {
+            if rng.chance(1, 2) {
+                UTF8_EDGE_CHARS[rng.usize_below(UTF8_EDGE_CHARS.len())]
+            } else {
+                SEMANTIC_CHARS[rng.usize_below(SEMANTIC_CHARS.len())]
+            }
+        })
+        .collect()
+}
+
+/// With probability 1/4 one of SEMANTIC_TOKENS (to be mixed into token haystacks).
+pub fn semantic_token(rng: &mut Rng) -> Option<String> {
+    if rng.chance(1, 4) {
+        Some(SEMANTIC_TOKENS[rng.usize_below(SEMANTIC_TOKENS.len())].to_string())
+    } else {
+        None
+    }
+}
+
 /// Maximal literal runs of the patterns ("cd" and "cd" in `(?<=cd)cd`, "aa" in `(?<=a)aa`).
 pub fn literal_tokens(patterns: &[&str], ascii: bool) -> Vec<String> {
     let mut toks: Vec<String> = Vec::new();
@@ -345,7 +396,7 @@ fn gen_start(rng: &mut Rng, profile: Profile) -> Start {
     }
 }
 
-const TEMPLATES: &[&str] = &["", "-", "$0", "[$1]", "$2$1", "$$", "${x}", "<$0|$1|$3>", "$10", "${y", "é$0", "<>", "é", "-", ""];
+const TEMPLATES: &[&str] = &["", "-", "$0", "[$1]", "$2$1", "$$", "${x}", "<$0|$1|$3>", "$10", "${y", "é$0", "<>", "é", "<>", ""];
 
 pub fn gen_world(base: u64, run: u64, profile: Profile) -> World {
     let root = Rng::world_root(base, run);
@@ -359,14 +410,26 @@ pub fn gen_world(base: u64, run: u64, profile: Profile) -> World {
         Profile::C19 => [1, 2, 2, 2, 3, 3, 4, 2, 3, 4, 5, 6][kn.usize_below(12)],
         Profile::C09 => [1, 1, 1, 2, 2, 3][kn.usize_below(6)],
     };
+    // 1 in 48 C19 worlds is a crowd: 9-16 threads with short scripts on ONE shared object,
+    // heavily preempted, so that more searches are in flight on it at once than any small
+    // fixed number of per-object slots (2, 4, 8) a pooling scheme might provide
+    let crowd = profile == Profile::C19 && kn.chance(1, 48);
+    let nthreads = if crowd { 9 + kn.usize_below(8) } else { nthreads };
     // 1 in 400 worlds: one big haystack (4-48 KB) whose candidate matches sit at distances
     // of 2^k - j from each other: size thresholds in prefilter scans (windows, chunking,
     // narrow integers) are out of reach of the ordinary strata
     if kn.chance(1, 400) {
         return gen_big_world(&mut wl, &mut sc, &corpus, profile);
     }
-    let fault_free = kn.chance(1, 10); // separate stratum: no faults, serial schedule
-    let strategy = if fault_free || nthreads == 1 {
+    let fault_free = !crowd && kn.chance(1, 10); // separate stratum: no faults, serial schedule
+    let strategy = if crowd {
+        match kn.below(4) {
+            0 => Strategy::Random { num: 1, den: 1 },
+            1 => Strategy::Random { num: 1, den: 2 },
+            2 => Strategy::Random { num: 1, den: 8 },
+            _ => Strategy::Quantum { q: 1 },
+        }
+    } else if fault_free || nthreads == 1 {
         Strategy::Serial
     } else {
         match kn.below(10) {
@@ -391,6 +454,7 @@ pub fn gen_world(base: u64, run: u64, profile: Profile) -> World {
         Profile::C19 => [1, 1, 2, 2, 3, 4][wl.usize_below(6)],
         Profile::C09 => [1, 1, 2, 3][wl.usize_below(4)],
     };
+    let nre = if crowd { 1 } else { nre };
     let mut regexes: Vec<RegexSpec> = Vec::new();
     for _ in 0..nre {
         let input = if wl.chance(ascii_pct, 100) { InputKind::Ascii } else { InputKind::Utf8 };
@@ -440,10 +504,20 @@ pub fn gen_world(base: u64, run: u64, profile: Profile) -> World {
 
     // ---- haystacks
     let pats: Vec<&str> = regexes.iter().map(|r| r.pattern.as_str()).collect();
-    let alpha_u = alphabet(&pats, false);
+    let mut alpha_u = alphabet(&pats, false);
     let alpha_a = alphabet(&pats, true);
-    let toks_u = literal_tokens(&pats, false);
-    let toks_a = literal_tokens(&pats, true);
+    // each edge character twice: about as likely as one of the pattern's own letters
+    let edge = edge_chars(&mut wl);
+    alpha_u.extend(edge.iter());
+    alpha_u.extend(edge.iter());
+    let mut toks_u = literal_tokens(&pats, false);
+    let mut toks_a = literal_tokens(&pats, true);
+    if let Some(t) = semantic_token(&mut wl) {
+        if t.is_ascii() {
+            toks_a.push(t.clone());
+        }
+        toks_u.push(t);
+    }
     let nhay = 1 + wl.usize_below(if profile == Profile::C19 { 4 } else { 6 });
     let mut hays: Vec<Hay> = Vec::new();
     for _ in 0..nhay {
@@ -471,7 +545,7 @@ pub fn gen_world(base: u64, run: u64, profile: Profile) -> World {
     let ascii_hays: Vec<u32> = hays.iter().enumerate().filter(|(_, h)| h.text.is_ascii()).map(|(i, _)| i as u32).collect();
 
     // ---- scripts
-    let max_ops: u64 = 24;
+    let max_ops: u64 = if crowd { 5 } else { 24 };
     let mut threads = Vec::new();
     for t in 0..nthreads {
         let nops = match profile {
@@ -533,8 +607,8 @@ pub fn gen_world(base: u64, run: u64, profile: Profile) -> World {
                         0..=63 => OpKind::Next { h },
                         64..=69 => {
                             // std's own Iterator methods on the concrete iterator type
-                            let kind = wl.below(4) as u32;
-                            if kind < 2 {
+                            let kind = wl.below(8) as u32;
+                            if kind < 2 || (4..=6).contains(&kind) {
                                 open.retain(|x| *x != h);
                             }
                             OpKind::Adaptor { h, kind, k: wl.below(4) as u32 }
